@@ -312,8 +312,21 @@ func c08Scenarios(disk bool) []*schedScenario {
 		return reader(9, 2).Fn(x)
 	}}
 	bgPost := func(x *schedCtx) string { return reader(8, 2, 0).Fn(x) }
+	// the old list is in force and still the one the origin serves when an update run starts; while its download is
+	// under way the origin publishes the next list and another update run (a forced one) begins
+	setupOld := func(x *schedCtx) {
+		w := NewCW(base)
+		x.W = append(x.W, w)
+		if err := w.Provision(); err != nil {
+			panic(err)
+		}
+		vsched.Drain()
+		w.Net.Serve(urlA, "v1", c.vers[1])
+		w.Lookup(c.probes[0], c.chain(c.probes[0]))
+	}
 	// probes: 0 common 1 oldOnly 2 newOnly 4 neither
 	return []*schedScenario{
+		{Name: name("a5-update-run-vs-publish-and-second-run"), Setup: setupOld, Ops: []schedOp{refresh, publishTick}, Post: bgPost},
 		{Name: name("a4-background-first-fetch-vs-publish-and-tick"), Setup: bgSetup, Ops: []schedOp{reader(1, 2), publishTick}, Post: bgPost},
 		{Name: name("a1-refresh-vs-2readers"), Setup: setup, Ops: []schedOp{refresh, reader(1, 1, 2, 0), reader(2, 2, 1, 4)}},
 		{Name: name("a2-configrefresh-vs-reader"), Setup: setup, Ops: []schedOp{cfgRefresh, reader(1, 1, 2, 1, 2)}},
